@@ -88,6 +88,9 @@ type Round struct {
 	// "more" chunk (before the reply to that chunk leaves the plugin, so no chunk is in
 	// flight). Without effect when the transfer has fewer than k "more" chunks.
 	AbortAfter int `json:"abort_after,omitempty"`
+	// Mask is the event subscription the plugin's Configure handler returns in this round
+	// (0 = everything). Synchronize is not an event: the oracle does not depend on it.
+	Mask int `json:"mask,omitempty"`
 }
 
 // maxRounds bounds the registrations of one case.
@@ -545,6 +548,7 @@ func genRound(t *rapid.T, kind string) Round {
 		})
 	}
 	c.RuntimeFails = rapid.IntRange(0, 4).Draw(t, "runtime-fails") == 0
+	c.Mask = genMask(t)
 	return c
 }
 
@@ -800,7 +804,8 @@ func (r Round) validate() (roundSizes, error) {
 	for _, s := range rs.ctrs {
 		total += s
 	}
-	if total > maxTotalAny || len(r.Updates) > 64 || r.AbortAfter < 0 || r.AbortAfter > 64 {
+	if total > maxTotalAny || len(r.Updates) > 64 || r.AbortAfter < 0 || r.AbortAfter > 64 ||
+		r.Mask < 0 || api.EventMask(r.Mask)&^api.ValidEvents != 0 {
 		return rs, fmt.Errorf("out of domain")
 	}
 	return rs, nil
@@ -877,12 +882,7 @@ func runOnce(c C09Case) (ev.Outcome, bool) {
 		o.mu.Unlock()
 		return o.want, nil
 	}
-	p.OnEvent = func(_ context.Context, _ api.Event, pod *api.PodSandbox, _ *api.Container) error {
-		if fx.IsProbe(pod) {
-			f.w.Seen(se.name)
-		}
-		return nil
-	}
+	seeProbes(p, func() { f.w.Seen(se.name) })
 	if err := p.NewStub(f.r.Socket, nil, stub.WithTTRPCOptions(nil,
 		[]ttrpc.ServerOpt{ttrpc.WithUnaryServerInterceptor(se.intercept)})); err != nil {
 		return ev.Outcome{Excluded: "stub: " + err.Error(), Overloaded: true}, false
@@ -941,6 +941,8 @@ func (se *session) runRound(idx int, c Round, rs roundSizes) (rr roundResult) {
 	if idx > 0 {
 		rr.classes = append(rr.classes, "re-registration")
 	}
+	rr.classes = append(rr.classes, maskClasses(c.Mask)...)
+	pe := probeEvent(c.Mask) // activity is observed through an event the plugin subscribed to
 	// how many oversize rejections the sender's arithmetic needs for this state (mirror)
 	predRej, predMsgs, predGaveUp := mirrorSender(pods, ctrs)
 	rr.classes = append(rr.classes, rejectionBand(predRej))
@@ -1002,6 +1004,7 @@ func (se *session) runRound(idx int, c Round, rs roundSizes) (rr roundResult) {
 	// refused without sending anything) can be over before the stub has seen the reply to
 	// its registration request. That is a legitimate face of "registration fails", so the
 	// verdict is taken from the runtime's side below and Start's error only recorded.
+	p.Mask = api.EventMask(c.Mask)
 	startErr := p.Stub.Start(context.Background())
 	se.starts++
 	// whatever happens, the session is ended before the next round (or the end of the case)
@@ -1137,7 +1140,7 @@ func (se *session) runRound(idx int, c Round, rs roundSizes) (rr roundResult) {
 	// --- activation ------------------------------------------------------------------------
 	expectActive := delivered && !c.RuntimeFails
 	if expectActive {
-		if err := f.r.WaitActive(f.w, 10*time.Second, name); err != nil {
+		if err := f.waitActive(pe, name, 10*time.Second); err != nil {
 			return failTime("synchronization succeeded but the plugin is not active: %v", err)
 		}
 	}
@@ -1210,7 +1213,7 @@ func (se *session) runRound(idx int, c Round, rs roundSizes) (rr roundResult) {
 	// events are delivered synchronously to every active plugin.
 	if !expectActive {
 		for i := 0; i < 3; i++ {
-			if err := f.r.Probe(); err != nil {
+			if err := f.probe(pe); err != nil {
 				return fail("probe event failed: %v", err)
 			}
 		}
@@ -1330,6 +1333,18 @@ func sweepCases() []C09Case {
 		Next: []Round{aborted(round(uniform(20, 1000), uniform(2000, 10000)), 1), round(uniform(20, 1000), uniform(2000, 10000))}})
 	// nothing is left behind by a successful split transfer or by a runtime-side failure either
 	out = append(out, C09Case{Round: round(uniform(3, 100), uniform(50, 200000)), Next: []Round{round(uniform(5, 100), uniform(70, 150000)), round(none, none)}})
+	// --- subscriptions: unsplit and split states, one history --------------------------------
+	for _, m := range []api.EventMask{removeCtrMask, podEventMask, removeCtrMask | podEventMask, ctrEventMask,
+		bit(api.Event_CREATE_CONTAINER), bit(api.Event_STOP_CONTAINER), bit(api.Event_UPDATE_POD_SANDBOX), api.ValidEvents} {
+		small, split := round(uniform(2, 100), uniform(5, 100)), round(uniform(3, 100), uniform(60, 150000))
+		small.Mask, split.Mask = int(m), int(m)
+		out = append(out, C09Case{Round: small}, C09Case{Round: split})
+	}
+	mh := round(uniform(3, 100), uniform(60, 150000))
+	mh.Mask = int(removeCtrMask)
+	mh2 := round(uniform(1, 100), uniform(9, 480000))
+	mh2.Mask = int(podEventMask)
+	out = append(out, C09Case{Round: aborted(mh, 1), Next: []Round{mh2, mh}})
 	rf := round(uniform(3, 100), uniform(50, 200000))
 	rf.RuntimeFails = true
 	out = append(out, C09Case{Round: rf, Next: []Round{round(uniform(3, 100), uniform(50, 200000))}})
